@@ -46,6 +46,7 @@ type pathCtx struct {
 	seen map[types.Object]bool
 	keepContext bool // do not drop variables of run-constant "context" types
 	noParams    bool // do not expand parameters through call sites
+	cuts        int  // number of expansions cut because the variable was already being expanded
 }
 
 // pathsOf returns the access paths an expression depends on.
@@ -97,6 +98,7 @@ func (pc *pathCtx) pathsOf(e ast.Expr, depth int, out map[string]bool) {
 			return
 		}
 		if pc.seen[obj] {
+			pc.cuts++
 			return // already being expanded (x = append(x, …))
 		}
 		// a parameter: what the callers pass
@@ -135,10 +137,14 @@ func (pc *pathCtx) pathsOf(e ast.Expr, depth int, out map[string]bool) {
 		}
 		pc.seen[obj] = true
 		sub := map[string]bool{}
+		cuts0 := pc.cuts
 		for _, d := range defs {
 			pc.pathsOf(d, depth+1, sub)
 		}
 		delete(pc.seen, obj)
+		if len(sub) == 0 && pc.cuts > cuts0 {
+			return // only reachable through a variable that is being expanded: contributes nothing new
+		}
 		if len(sub) == 0 {
 			// assigned constants only: the value depends on what controls the assignments (switch tags, conditions)
 			for _, ce := range controlExprs(info, pc.fi.Decl, obj) {
